@@ -364,3 +364,42 @@ package proto
 //@   modifies contents(b)
 //@   ensures forall j in 0..min(16, len(b)) :: b[j] == v[j]
 //@   ensures forall k in 16..len(b) :: b[k] == old(b[k])
+
+// ---------------------------------------------------------------------------
+// C14: the vectored writer.
+// pending output = concat(w.vec) ++ w.buf.Buf[w.bufOffset:]; representation invariant RI(w):
+//   0 <= bufOffset <= len(buf.Buf).
+// The contracts below pin the structural facts from which "exactly what was chained, once, in
+// order" follows: a cut moves exactly buf.Buf[bufOffset:len] into vec as ONE capacity-limited
+// slice (so later appends to buf cannot overwrite it), ChainWrite cuts first and then appends
+// the caller's slice as the last element, Flush cuts, writes vec once and resets on success
+// and on failure.
+
+//@ valid (w *Writer): w != nil ==> w.buf != nil
+//@ spec func wRI(w Val) Bool = 0 <= w.bufOffset && w.bufOffset <= len(w.buf.Buf)
+
+//@ contract (w *Writer) cutBuffer() props(C14)
+//@   requires w != nil && wRI(w)
+//@   modifies w.bufOffset, w.vec
+//@   ensures wRI(w) && w.bufOffset == len(w.buf.Buf) {offset-at-end}
+//@   ensures old(w.bufOffset) == len(w.buf.Buf) ==> len(w.vec) == old(len(w.vec)) {nothing-to-cut}
+//@   ensures old(w.bufOffset) < len(w.buf.Buf) ==> len(w.vec) == old(len(w.vec)) + 1 {one-new-element}
+//@   ensures old(w.bufOffset) < len(w.buf.Buf) ==> len(w.vec[old(len(w.vec))]) == len(w.buf.Buf) - old(w.bufOffset) && cap(w.vec[old(len(w.vec))]) == len(w.vec[old(len(w.vec))]) {cut-is-cap-limited}
+//@   ensures old(w.bufOffset) < len(w.buf.Buf) ==> arrayof(w.vec[old(len(w.vec))]) == arrayof(w.buf.Buf) && offset(w.vec[old(len(w.vec))]) == offset(w.buf.Buf) + old(w.bufOffset) {cut-is-the-staged-bytes}
+
+//@ contract (w *Writer) ChainWrite(data) props(C09,C14)
+//@   requires w != nil && wRI(w)
+//@   modifies w.bufOffset, w.vec
+//@   ensures wRI(w) && w.bufOffset == len(w.buf.Buf) {cut-first}
+//@   ensures len(w.vec) == old(len(w.vec)) + 1 + ite(old(w.bufOffset) < len(w.buf.Buf), 1, 0) {count}
+//@   ensures arrayof(w.vec[len(w.vec) - 1]) == arrayof(data) && offset(w.vec[len(w.vec) - 1]) == offset(data) && len(w.vec[len(w.vec) - 1]) == len(data) {data-is-last}
+
+//@ contract (w *Writer) reset() props(C14)
+//@   requires w != nil
+//@   modifies w.bufOffset, w.needCut, w.vec, w.buf.Buf, contents(w.vec)
+//@   ensures w.bufOffset == 0 && len(w.vec) == 0 && len(w.buf.Buf) == 0
+
+//@ contract (w *Writer) Flush() (n, err) props(C02,C04,C09,C14)
+//@   requires w != nil && wRI(w) && w.conn != nil
+//@   modifies w.bufOffset, w.needCut, w.vec, w.buf.Buf, contents(w.vec)
+//@   ensures w.bufOffset == 0 && len(w.vec) == 0 && len(w.buf.Buf) == 0 {reset-always}
